@@ -68,6 +68,10 @@ func exec(op string) vlib.Res {
 		if f[1] == "serve" {
 			return execED(kv(f[2:]))
 		}
+	case "sx":
+		if f[1] == "walk" {
+			return execSX(kv(f[2:]))
+		}
 	case "ch":
 		if f[1] == "run" {
 			return execCH(kv(f[2:]))
@@ -576,7 +580,18 @@ func execLad(f []string) vlib.Res {
 				rawSettled(s.build(markers[p], nil, nil), remoteFor(p, "tcp", false, 60000+n))
 			}
 		}
-		if a["den"] == "1" {
+		if a["zd"] != "" {
+			// a denial zone at depth zd (0 = the root) above a two-label name: the byte path's
+			// suffix walks must see every ancestor zone, the root included
+			tmpl := "pos." + a["nm"] + "-@."
+			for p := 0; p < 3; p++ {
+				names[p] = strings.ReplaceAll(tmpl, "@", string(markers[p]))
+			}
+			s.name = tmpl
+			if !seedDenialAt(names, vlib.Atoi(a["zd"])) {
+				return vlib.Res{Impl: "proof-not-installed", Oracle: "FAIL sig=c05/harness/denial-proof-rejected"}
+			}
+		} else if a["den"] == "1" {
 			// a validated NSEC3 proof covers the name: the decoded ladder synthesizes the denial
 			// before it looks at failure state, and a failure recorded over such a zone carries no
 			// miss witness (NSEC3 misses can be crypto-budget starvation)
